@@ -25,6 +25,7 @@ from . import c12_copy as CPY
 from . import c12_prop as PRP
 from . import c12_role as ROLE
 from . import c12_attr as ATT
+from . import c12_text as TXT
 from ..extract import writeorder as _wo
 from ..extract import mutorder as _mo
 from ..extract import linkorder as _lo
@@ -32,6 +33,7 @@ from ..extract import copyorder as _co
 from ..extract import propcreate as _pc
 from ..extract import roleorder as _ro
 from ..extract import attrorder as _ao
+from ..extract import textorder as _to
 from ..extract import frameshape as _fs         # C16's translator of data_frame.py: frame_write_refused_unchanged rests on it
 from ..extract import datasetshape as _ds       # C01's compiler of data_set.py: append_refused_unchanged rests on it
 
@@ -107,6 +109,12 @@ THEOREMS = [
     "Nix.C12.set_attr_refused_unchanged",
     "Nix.C12.data_array_label_accepted",
     "Nix.C12.set_attr_text_check_counterexample",
+    "Nix.C12.text_vector_sound",
+    "Nix.C12.text_vector_setters_safe",
+    "Nix.C12.text_vector_setter_refused_unchanged",
+    "Nix.C12.text_vector_history_skips_refused",
+    "Nix.C12.set_attr_vector_check_counterexample",
+    "Nix.C12.write_data_text_check_counterexample",
     "Nix.Guarded.history_skips_refused",
     "Nix.C12.role_history_skips_refused",
     "Nix.C12.attr_history_skips_refused",
@@ -148,6 +156,10 @@ ASSUMPTIONS = [
     "an HDF5 type for the value); h5py determines the HDF5 type of a value before it touches the attribute and removes "
     "the previous value before it writes the new one (a text it cannot store is found out after the removal); "
     "RangeDimension.label / unit are modelled for a dimension without link",
+    "TextVecWrite: the value offered as units / labels is abstract (truth value defined, falsy, list-like, iterable, every "
+    "element accepted by the validation loop, convertible to an array of texts with one entry per column, every text "
+    "storable); resizing / creating the dataset cannot fail; h5py removes the previous value of the units attribute before "
+    "it refuses a text",
     "PropCreate: name and values enter as classes (name usable as key / taken / accepted by check_entity_name; values "
     "accepted by the typing block / element type known / storable - harness table VALUES of c12_prop.py); the theorem "
     "assumes the duplicate test sees the section as it is (Consistent)",
@@ -170,6 +182,8 @@ TRUSTED_EXTRA = ["harness/lib/storeimpl.py + storegen.py (path addressing by ite
                  "harness/extract/roleorder.py renders the eleven role-link setters and H5Group.create_link statement by "
                  "statement, one path per class of the offered object (tests on the class are evaluated, every other "
                  "test must be one of the known membership / presence / link-type tests; unknown statement = broken tie)",
+                 "harness/extract/textorder.py renders BaseTag.units, SetDimension.labels, DataFrame.units and the text branch of "
+                 "write_data / the vector branch of set_attr; harness/props/c12_text.py probes of the offered value",
                  "harness/extract/attrorder.py finds every property setter of the anchored modules that calls set_attr and "
                  "renders it with H5Group.set_attr / H5DataSet.set_attr inlined (unknown statement = broken tie); "
                  "harness/props/c12_attr.py probes of the offered value",
@@ -236,6 +250,11 @@ MANIFEST = {
                   "with the instances role_history_skips_refused / attr_history_skips_refused - refusals injected at any "
                   "point of any history of assignments; set_attr_text_check_counterexample proves the "
                   "set_attr of before nixio df56e57 wrong (h5py removes the previous value before it refuses a text). "
+                  "(5d) vectors of texts (Pure/TextVecWrite.lean on Generated/TextVecOrder.lean: BaseTag.units, "
+                  "SetDimension.labels with write_data(text dtype) inlined, DataFrame.units with the vector branch of set_attr "
+                  "inlined): text_vector_sound + text_vector_setters_safe + text_vector_setter_refused_unchanged (+ history "
+                  "form); set_attr_vector_check_counterexample / write_data_text_check_counterexample prove the callees of "
+                  "before nixio a2e6437 / ac8fa14 wrong. "
                   "(6) DataSet.append / write_direct / __setitem__ / data_extent: append_refused_unchanged and "
                   "data_step_refused_unchanged restate, on the definitions C01 compiles from data_set.py, that a raised step "
                   "leaves extent, elements, element type and filter flag as they were (the roll-back of append); "
@@ -248,16 +267,18 @@ MANIFEST = {
                   "the value x short / long stored state, and every argument of 82 multi-argument calls varied in turn over "
                   "~180 respellings of its own valid value - the same content as tuple / ndarray / generator / duck-typed "
                   "container / NumPy scalar / enum text / entity id ...; quick tier: a stratified part, thorough: most of it).",
-    "level_note": "Trusted: Lean kernel; standard axioms; the correspondence harness with its fault table and element table; "
+    "level_note": "Trusted: Lean kernel; standard axioms; the correspondence harness with its fault table and element table "
+                  "and its probes of offered objects / values (class and place of an entity offered to a role link, what a value "
+                  "offered to an attribute is); "
                   "the translators' reading of the statements; h5py/HDF5 link and resize semantics modelled, not "
                   "verified; the event classification of mutorder.py is by method name and the 15 mutators listed in "
                   "Props/C12.lean `writesFirst` are exempt from the order theorem (covered by the writer model or the oracle "
-                  "only). Partial: refusals of the vector-valued dimension setter SetDimension.labels' own "
-                  "validation loop, DataFrame.units, Property.odml_type, label / unit of a LINKED range dimension (C05 models "
+                  "only). Partial: refusals of Property.odml_type, label / unit of a LINKED range dimension (C05 models "
                   "the link) and File-level deletes have no C12 theorem: they are checked by the oracle (catalogue + spelling "
                   "sweep) on the implementation only. Tag.units / MultiTag.units / SetDimension.labels: only their common "
                   "write_data call with a text dtype has a theorem (write_data_text_refused_unchanged), their own validation "
-                  "loops are not modelled; the copy model stops at the destination container (the copied subtree is one item); ticks_refused_unchanged assumes that a linked dimension holds no ticks dataset. create_multi_tag with positions/extents given as data has its own full theorem "
+                  "loops are not modelled; the copy model stops at the destination container (the copied subtree is one item); ticks_refused_unchanged assumes that a linked dimension holds no ticks dataset. Open finding (modelled as it is, counterexample proved): an object of another file handed to "
+                  "Dimension.link_data_array / link_data_frame is refused after the link group was rebuilt. create_multi_tag with positions/extents given as data has its own full theorem "
                   "(multi_tag_refused_unchanged, under C03's invariant WF and the assumption that '<name>-positions' / "
                   "'<name>-extents' are not ids of the supply). name_still_available is proved for "
                   "create_group/source/data_array/tag (not for multi tags).",
@@ -277,6 +298,7 @@ def extract(repo):
     files.update(_pc.extract(repo))
     files.update(_ro.extract(repo))
     files.update(_ao.extract(repo))
+    files.update(_to.extract(repo))
     files.update(_ds.extract(repo))
     files.update(_fs.extract(repo))
     return files
@@ -1028,8 +1050,32 @@ def correspondence(ctx):
             disagreements.append(Disagreement({"attr_case": c, "abstraction": o}, ATT.canon_model(m, c, o),
                                               dict(ATT.canon_impl(i, o), error=i["err"])))
     total += len(acases)
+    # vectors of texts: Tag.units / MultiTag.units / SetDimension.labels / DataFrame.units against Pure/TextVecWrite.lean
+    tcases = TXT.all_cases()
+    tdist = {"refused": 0, "accepted": 0}
+    tpath = ctx.tmpfile("c12-text.nix")
+    tf, tc = _scene_file(ctx, tpath)
+    try:
+        with ticking_clock():
+            tops = [TXT.abstract(tc, c) for c in tcases]
+            tres = [_quiet(lambda c=c: TXT.run(tc, c)) for c in tcases]
+    finally:
+        _close_scene(tf, tc, tpath)
+    tmodel = core.run_driver(PROP, tops)
+    for c, o, m, i in zip(tcases, tops, tmodel, tres):
+        tdist["refused" if i["err"] else "accepted"] += 1
+        seen.add(core.canon(["text", c]))
+        if TXT.canon_model(m, c) != TXT.canon_impl(i):
+            disagreements.append(Disagreement({"text_case": c, "abstraction": o}, TXT.canon_model(m, c),
+                                              dict(TXT.canon_impl(i), error=i["err"])))
+    total += len(tcases)
     return {"evaluations": total, "distinct_nontrivial": len(seen),
-            "rule": "(00000) single-valued attributes: each of the 21 setters that end in set_attr (Entity.type / definition, "
+            "rule": "(000000) vectors of texts: Tag.units / MultiTag.units / SetDimension.labels (plain and linked) / "
+                    "DataFrame.units x vector stored or not x 30 values (None, empty, lists / tuples / ndarrays / generators / "
+                    "dicts / sets / duck-typed iterables of texts, wrong counts, elements None / int / bytes / nested, texts "
+                    "with NUL or a lone surrogate, numbers, objects): refused or accepted, the stored vector afterwards "
+                    "(absent / previous / other, read with h5py), updated_at moved - against Pure/TextVecWrite.lean run on "
+                    "Generated/TextVecOrder.lean. (00000) single-valued attributes: each of the 21 setters that end in set_attr (Entity.type / definition, "
                     "DataArray.unit / label / expansion_origin, dimension label / unit / offset / sampling_interval, the "
                     "Property attributes, Section.reference / repository, Feature.link_type) x attribute present / absent x "
                     "32 values (None, text, empty / blank text, text with NUL / a lone surrogate, numpy.str_, str subclass, "
@@ -1082,7 +1128,7 @@ def correspondence(ctx):
             "samples": samples,
             "distribution": {"ops": dist, "impl_errors": errs, "injected": inj, "refused_mutating_calls": refused_mut,
                              "vector_cases": vdist, "link_cases": ldist, "copy_cases": cdist, "property_cases": pdist,
-                             "role_cases": rdist, "attr_cases": adist},
+                             "role_cases": rdist, "attr_cases": adist, "text_vector_cases": tdist},
             "disagreements": disagreements, "exhaustive": False}
 
 
@@ -1907,7 +1953,7 @@ def _case_unchanged(kind, case, i):
         if "link" in i and bool(i["link"]) != bool(case.get("linked")):
             return "link of the dimension: %s -> %s" % (bool(case.get("linked")), i["link"])
         return None
-    if kind in ("role_case", "attr_case"):
+    if kind in ("role_case", "attr_case", "text_case"):
         return "what the owner shows changed: %s" % (i,) if i.get("changed") else None
     return None
 
@@ -1915,7 +1961,7 @@ def _case_unchanged(kind, case, i):
 def _run_cases(ctx, kind, cases, tag):
     """[(case, observation)] of the cases on a scene of their kind"""
     out = []
-    if kind in ("role_case", "attr_case"):
+    if kind in ("role_case", "attr_case", "text_case"):
         path = ctx.tmpfile("c12-case-%s.nix" % tag)
         f = c = None
         try:
@@ -1924,6 +1970,8 @@ def _run_cases(ctx, kind, cases, tag):
                     f, c = _scene_file(ctx, path)
                 if kind == "role_case":
                     i, dirty = _quiet(lambda: ROLE.run(c, case))
+                elif kind == "text_case":
+                    i, dirty = _quiet(lambda: TXT.run(c, case)), False
                 else:
                     i, dirty = _quiet(lambda: ATT.run(c, case)), False
                 out.append((case, i))
@@ -1944,7 +1992,7 @@ def _run_cases(ctx, kind, cases, tag):
     return out
 
 
-CASE_KINDS = ("link_case", "copy_case", "property_case", "vector_case", "role_case", "attr_case")
+CASE_KINDS = ("link_case", "copy_case", "property_case", "vector_case", "role_case", "attr_case", "text_case")
 
 
 def _case_failures(ctx, kind, cases, tag):
@@ -1956,7 +2004,7 @@ def _case_failures(ctx, kind, cases, tag):
         refused += 1
         diff = _case_unchanged(kind, case, i)
         if diff is not None:
-            fn = case.get("fn") or case.get("setter") or case.get("via") or ""
+            fn = case.get("fn") or case.get("setter") or case.get("owner") or case.get("via") or ""
             fails.append(Failure("a refused call changed the file", {"kind": "case", "which": kind, "case": case},
                                  {"raised": i.get("error") or i.get("err"), "changes": [diff]},
                                  "what the call can touch is as it was before the refused call", "%s:%s" % (kind, fn)))
